@@ -154,10 +154,16 @@ TV = {
     'C11': tvs('s c pair', 'settings', n=(20, 600)),
     'C12': tvs('s c', 'settings', n=(20, 600), chaos=0.3),
     'C13': tvs('pair', 'headers mix', n=(24, 600), chaos=0.2),
-    'C14': tvs('s c', 'headers', n=(24, 600), chaos=0.2),
-    'C15': tvs('s c', 'headers', n=(24, 600), chaos=0.2),
+    # configurations: outbound / inbound validation and normalisation switched off one by one, header_encoding
+    'C14': tvs('s c', 'headers', n=(24, 600), chaos=0.2, cfgs=[None, {'c': {'no': False}, 's': {'no': False}},
+                                                              {'c': {'vo': False}, 's': {'vo': False}},
+                                                              {'c': {'vo': False, 'no': False}, 's': {'vo': False, 'no': False}}]),
+    'C15': tvs('s c', 'headers', n=(24, 600), chaos=0.2, cfgs=[None, {'c': {'enc': True}, 's': {'enc': True}},
+                                                              {'c': {'vi': False}, 's': {'vi': False}},
+                                                              {'c': {'ni': False}, 's': {'ni': False}}]),
     'C16': tvs('s c', 'mix flow headers'),
-    'C17': tvs('s c', 'mix close headers raw', chaos=0.35),
+    'C17': tvs('s c', 'mix close headers raw', chaos=0.35, cfgs=[None, {'c': {'enc': True}, 's': {'enc': True}},
+                                                                {'c': {'vi': False}, 's': {'vi': False}}]),
     'C18': tvs('s c', 'mix close settings raw', chaos=0.35),
     'C19': tvs('s c pair', 'close', n=(20, 500), chaos=0.2),
     'C20': tvs('s c pair', 'life push', max_closed=[None, 2]),
